@@ -174,3 +174,10 @@ Theorem C03_rsv1_is_source : forall cfg h,
   h_rsv1 h = true -> gen_rsv1_illegal (flate_on cfg) (Z.of_N (h_opc h)) = true -> hdr_violation cfg h = true.
 Proof. exact rsv1_source_refused_is_violation. Qed.
 Print Assumptions C03_rsv1_is_source.
+
+Theorem C03_model_literals_are_source :
+  c_maxControlPayload = 125%Z /\ c_maxCloseReason = 123%Z /\
+  c_opContinuation = 0%Z /\ c_opText = 1%Z /\ c_opBinary = 2%Z /\ c_opClose = 8%Z /\ c_opPing = 9%Z /\ c_opPong = 10%Z /\
+  c_MessageText = c_opText /\ c_MessageBinary = c_opBinary /\ (c_maxCloseReason + 2 = c_maxControlPayload)%Z.
+Proof. exact model_literals_are_source. Qed.
+Print Assumptions C03_model_literals_are_source.
